@@ -123,6 +123,14 @@ class GotranPythonCodePrinter(PythonCodePrinter):
         lhs, rhs = expr.args
         return f"({self._print(lhs)} == {self._print(rhs)})"
 
+    def _print_re(self, expr):
+        # sympy introduces re() when it cannot prove an argument real (Abs(exp(acos(x))));
+        # every quantity in the generated code is a real number
+        return f"numpy.real({self._print(expr.args[0])})"
+
+    def _print_im(self, expr):
+        return f"numpy.imag({self._print(expr.args[0])})"
+
     def _print_Mod(self, expr):
         # ``a % b`` printed without parentheses is re-associated by the surrounding
         # expression (``x % 1/4``, ``-0.5*(2*x) % 1``); numpy.mod has the same sign convention
